@@ -288,7 +288,15 @@ class ExprGen:
             return ('bin', '**', a, b)
         if s.coin('trig', self.trig_bias):
             # rule triggers: e op e, e op -e, literal identities, nested same-operator chains
-            c = s.choose('trigkind', 9)
+            c = s.choose('trigkind', 12)
+            if c >= 9:
+                b = self.num(d + 2)
+                inv = {'+': '-', '-': '+', '*': '/', '/': '*'}.get(op, '-')
+                if c == 9:
+                    return ('bin', inv, ('bin', op, a, b), s.pick('cancel', (a, b)))
+                if c == 10:
+                    return ('bin', op, ('bin', inv, a, b), b)
+                return ('call', s.pick('idem', ('abs', 'max', 'min')), ('set', [a, ('un', '-', a), a])) if s.coin('idemset', 0.5) else ('call', 'abs', ('un', '-', a))
             if c == 7:
                 # (a op lit) op (b op c): both sides are applications of the same operator
                 return ('bin', op, ('bin', op, a, self.num_lit()), ('bin', op, self.num(d + 2), self.num(d + 2)))
@@ -354,7 +362,17 @@ class ExprGen:
         op = s.weighted('conn', [(4, 'and'), (4, 'or'), (2, 'implies'), (2, 'iff')])
         a = self.boolean(d + 1)
         if s.coin('trigb', self.trig_bias):
-            c = s.choose('trigbkind', 8)
+            c = s.choose('trigbkind', 11)
+            if c >= 8:
+                # two comparisons over the same operands, related by their operators
+                x, y = self.num(d + 2), (self.num(d + 2) if s.coin('rl', 0.5) else self.num_lit())
+                r1 = s.pick('rel1', RELOPS + EQOPS)
+                r2 = s.pick('rel2', RELOPS + EQOPS)
+                left = ('bin', r1, x, y)
+                right = ('bin', r2, y, x) if c == 9 else ('bin', r2, x, y)
+                if c == 10:
+                    right = ('un', 'not', right)
+                return ('bin', op, left, right)
             if c == 6:
                 return ('bin', op, ('bin', op, a, ('lit', 'bool', s.pick('blit', ('True', 'False')))), ('bin', op, self.boolean(d + 2), self.boolean(d + 2)))
             if c == 7:
@@ -391,6 +409,12 @@ class ExprGen:
         else:
             l2 = self.num_lit()
         ops = ('+', '-', '*', '/')
+        if s.coin('cancelchain', 0.3):
+            # a term shifted and shifted back (or not quite), compared with the bare term
+            o1 = s.pick('ccop1', ('+', '-'))
+            o2 = s.pick('ccop2', ('+', '-'))
+            chain = ('bin', o2, ('bin', o1, a, l1), l2)
+            return (chain, a) if s.coin('ccside', 0.7) else (a, chain)
         return ('bin', s.pick('shop1', ops), a, l1), ('bin', s.pick('shop2', ops), a, l2)
 
     def rel(self, d):
